@@ -31,7 +31,61 @@ static bool deser(const std::string &s, Case &c) {
     return c.cells.size() == n;
 }
 
+// flags bit 8: the case is a set in COMPACTED form (cells of resolutions <= res, none an ancestor of another) and the implied S is its
+// uncompaction at res — |S| can be astronomically large (depth differences up to 15), so only the size function and, when S is small
+// enough to materialise, uncompactCells itself are judged
+static void checkCompactedForm(const Case &c) {
+    const int r = c.res;
+    size_t n = c.cells.size();
+    if (n == 0) { DISCARD(); return; }
+    __int128 total = 0;
+    int maxdiff = 0;
+    for (size_t i = 0; i < n; i++) {
+        uint64_t x = c.cells[i];
+        if (!ref::valid_cell(x) || ref::res_of(x) > r) { DISCARD(); return; }
+        for (size_t j = 0; j < i; j++) {
+            uint64_t y = c.cells[j];
+            int m = std::min(ref::res_of(x), ref::res_of(y));
+            if (ref::parent(x, m) == ref::parent(y, m)) { DISCARD(); return; }  // ancestor relation or duplicate
+        }
+        total += ref::children_count(x, r);
+        maxdiff = std::max(maxdiff, r - ref::res_of(x));
+    }
+    if (total > (__int128)4000000000000000000LL) { DISCARD(); return; }
+    Guarded<H3Index> in(n);
+    memcpy(in.p(), c.cells.data(), n * 8);
+    int64_t sz = -1;
+    H3Error e = uncompactCellsSize(in.p(), (int64_t)n, r, &sz);
+    CHECK(e == E_SUCCESS && sz == (int64_t)total, "uncompact-size", "uncompactCellsSize(%zu cells, up to %d levels coarser, target res %d) = %lld (err %u), the set has %lld cells", n, maxdiff, r, (long long)sz, e, (long long)total);
+    COUNT("compacted_form");
+    if (maxdiff >= 5) { COUNT("compacted_form.depth>=5"); NONTRIVIAL(); }
+    if (maxdiff >= 10) COUNT("compacted_form.depth>=10");
+    if (total <= 400000) {
+        size_t N = (size_t)total;
+        Guarded<H3Index> u(N, 0x5b);
+        e = uncompactCells(in.p(), (int64_t)n, u.p(), (int64_t)N, r);
+        CHECK(u.intact(), "guard", "uncompactCells wrote outside a buffer of exactly the announced size");
+        CHECK(e == E_SUCCESS, "uncompact-code", "uncompactCells failed with %u at the announced size %zu", e, N);
+        std::vector<uint64_t> got(u.p(), u.p() + N);
+        std::sort(got.begin(), got.end());
+        for (size_t i = 0; i < N; i++) {
+            CHECK(ref::valid_cell(got[i]) && ref::res_of(got[i]) == r, "uncompact-set", "uncompactCells produced %016llx (not a valid cell of res %d)", (unsigned long long)got[i], r);
+            CHECK(i == 0 || got[i] != got[i - 1], "uncompact-set", "uncompactCells produced %016llx twice", (unsigned long long)got[i]);
+            bool covered = false;
+            for (uint64_t x : c.cells) if (ref::parent(got[i], ref::res_of(x)) == x) covered = true;
+            CHECK(covered, "uncompact-set", "uncompactCells produced %016llx, which descends from none of the input cells", (unsigned long long)got[i]);
+        }
+        if (N >= 1) {
+            Guarded<H3Index> sm(N - 1, 0);
+            e = uncompactCells(in.p(), (int64_t)n, sm.p(), (int64_t)N - 1, r);
+            CHECK(sm.intact(), "guard", "uncompactCells overran a buffer one slot short");
+            CHECK(e == E_MEMORY_BOUNDS, "uncompact-bounds", "uncompactCells with capacity %zu of %zu returned %u, expected E_MEMORY_BOUNDS", N - 1, N, e);
+        }
+    }
+}
+
 static void check(const Case &c) {
+    if (c.flags & 256) { checkCompactedForm(c); return; }
     const int r = c.res;
     size_t n = c.cells.size();
     if (n == 0) { DISCARD(); return; }
@@ -137,6 +191,19 @@ static void addSubtree(std::vector<uint64_t> &v, uint64_t anc, int r) {
 
 static Case draw() {
     Case c;
+    if (rpick({7, 1}) == 1) {  // compacted-form input: a few cells up to 15 levels coarser than the target
+        c.flags = 256;
+        c.res = rpick({1, 2}) == 0 ? ri(0, 15) : ri(8, 15);
+        int k = ri(1, 6);
+        for (int i = 0; i < k; i++) {
+            int rx = rpick({1, 1}) == 0 ? ri(0, c.res) : std::max(0, c.res - ri(3, 15));
+            uint64_t x = gen::cellRes(rx, {3, 3, 2, 1, 0, 0, 1, 0, 2}).h;
+            bool clash = false;
+            for (uint64_t y : c.cells) { int m = std::min(ref::res_of(x), ref::res_of(y)); if (ref::parent(x, m) == ref::parent(y, m)) clash = true; }
+            if (!clash) c.cells.push_back(x);
+        }
+        return c;
+    }
     c.res = rpick({1, 12}) == 0 ? 0 : ri(1, 15);
     int r = c.res;
     int nblocks = ri(1, 8);
@@ -223,6 +290,20 @@ static Case draw() {
 }
 
 static void enumerate(const std::string &tier, int shard, int nshards, const std::function<void(const Case &)> &emit) {
+    {   // the size function at every (coarse resolution, depth difference) for a hexagon, a pentagon and both together
+        long k = 0;
+        int zero[16] = {0};
+        for (int rx = 0; rx <= 15; rx++)
+            for (int r = rx; r <= 15; r++) {
+                if ((k++ % nshards) != shard) continue;
+                uint64_t hex = ref::center_child(ref::make_cell(0, 20, zero), rx), pen = ref::center_child(ref::make_cell(0, 4, zero), rx);
+                Case c;
+                c.flags = 256; c.res = r;
+                c.cells = {hex}; emit(c);
+                c.cells = {pen}; emit(c);
+                c.cells = {pen, hex}; emit(c);
+            }
+    }
     // every pentagon at every res x complete families at depth 1..3 (4 thorough); every res-0 cell's full sub-tree at res 1..3
     int D = tier == "thorough" ? 4 : 3;
     long idx = 0;
